@@ -242,7 +242,37 @@ def k11_file_opener_rewrites(label, actions, pre, problem):
         return False
     what = problem.get('what', '')
     writers = [a for a in actions if a[0] in ('set', 'del', 'pop', 'update', 'clear', 'dump', 'setdefault', 'popkeys')]
-    return 'after all processes finished the archive holds' in what and len(writers) == 1 and len(actions) >= 2
+    # only a handle opened with cached=False re-saves: the cached front end (open-cached, read-cache) does not write
+    resaving = [a for a in actions if a not in writers and a[0] not in ('open-cached', 'read-cache')]
+    return 'after all processes finished the archive holds' in what and len(writers) == 1 and len(resaving) >= 1
+
+
+def k2_dir_overwrite_window_reader(label, actions, pre, problem):
+    """K2 as a concurrent reader sees it (C14): between the move aside of the old entry directory and the
+    move in of the new one the key being overwritten is absent (membership False, lookup KeyError, missing
+    from keys/items/load).  Matches only readers that act inside that window."""
+    if not label.startswith('dir') or pre == 'EMPTY':
+        return False
+    what = problem.get('what', '')
+    if 'stored throughout' not in what:
+        return False
+    try:
+        reader = what.split('process ', 1)[1].split(' ', 1)[0]
+    except IndexError:
+        return False
+    steps = _steps(problem)
+    aside = inn = None
+    for i, (who, st) in enumerate(steps):
+        if who == reader:
+            continue
+        if st.startswith('rename(K_') and not st.startswith('rename(K_.I_') and aside is None:
+            aside = i
+        elif st.startswith('rename(K_.I_') and aside is not None and inn is None:
+            inn = i
+    if aside is None:
+        return False
+    inn = len(steps) if inn is None else inn
+    return any(who == reader and aside < i < inn for i, (who, st) in enumerate(steps))
 
 
 def probe_k12_sql_unpicklable():
